@@ -10,9 +10,9 @@ theorem readAt_length (file : Bytes) (pos len : Nat) (bs : Bytes) (h : readAt fi
     bs.length = len := by
   unfold readAt at h
   split at h
-  · contradiction
+  · injection h with h; subst h; rename_i h0; simp [h0]
   · split at h
-    · injection h with h; subst h; rename_i h0; simp [h0]
+    · contradiction
     · split at h
       · injection h with h; subst h
         rw [List.length_take, List.length_drop]; omega
